@@ -82,7 +82,11 @@ class AugmentedLagrangianOrder1(AugmentedLagrangianPenaltyHeuristic):
         x_opt: NumberArray,
     ) -> None:  # noqa:D107
         if self.__lagrange_multiplier_calculator is None:
+            # LagrangeMultipliers resets the evaluation counter of the problem,
+            # which must keep counting the iterations of this driver.
+            current_iteration = self._problem.evaluation_counter.current
             self.__lagrange_multiplier_calculator = LagrangeMultipliers(self._problem)
+            self._problem.evaluation_counter.current = current_iteration
 
         self.__lagrange_multiplier_calculator.compute(x_opt)
         lag_ms = self.__lagrange_multiplier_calculator.get_multipliers_arrays()
